@@ -41,4 +41,22 @@ PROPS["C04"] = dict(
                "The urlopen recursion (attempts on the wire <= 1 + budgets) is not yet under contract.",
 )
 
+PROPS["C18"] = dict(
+    contracts=["poolmanager_key", "poolmanager_merge"],
+    extra=["extra.c18_keywords.check"],
+    trusted_base=COMMON_TRUSTED + ["frozenset(m.items()) / tuple(x) are functions of content (uninterpreted symbols)"],
+    assumptions=["equality/hash of opaque key values (ssl_context, Timeout, Retry, Url) is identity or their own __eq__",
+                 "the pool class looked up in pool_classes_by_scheme is an opaque constructor (fresh result, may raise any Exception)"],
+    not_decided=["connection_from_host/connection_from_context/connection_from_pool_key are not yet under contract (the cache lookup itself is C17)"],
+    level_text="Deductive proof that the real _default_key_normalizer maps a request context to a PoolKey field by field (each key field a function of its own keyword only: "
+               "identity, or lower() for scheme/host, frozenset(items) for header dicts, tuple for socket_options, 16384 for a missing blocksize) - which is key injectivity up to exactly "
+               "those normalisations - and rejects a keyword outside the key with TypeError; that _merge_pool_kwargs returns a fresh dict and leaves the manager's defaults untouched "
+               "(frame obligation), with override semantics proved for a generic other key; that _new_pool hands the pool constructor exactly the keyed context (minus scheme/host/port, "
+               "minus SSL keywords only for http); plus a finite-set obligation recomputed from the running signatures: every keyword accepted by the pool and connection constructors "
+               "is a PoolKey field or supplied by the pool from keyed attributes.",
+    level_note="The keyword universe is the one read from the running code (PoolKey._fields, constructor signatures) on every run; variants cover all-keywords-present, minimal and unknown-keyword contexts. "
+               "Opaque values compare by identity/their own __eq__ (assumed).",
+    technique="contract-based deductive verification (VCs from the real ASTs, z3) + finite-set obligation over signatures read from the running interpreter",
+)
+
 NOT_APPLICABLE_REASON = {}
